@@ -5,6 +5,7 @@ import (
 	"encoding/json"
 	"fmt"
 	"sync"
+	"sync/atomic"
 	"testing"
 	"time"
 
@@ -161,6 +162,7 @@ func runC17(c C17Case) (res c17result) {
 		}
 		pconns[pi] = cn
 	}
+	var pubsRunning atomic.Int32
 	sent := make([]map[int]int, len(c.Pubs)) // per publisher: topic -> count
 	var wg sync.WaitGroup
 	perr := make([]string, len(c.Pubs))
@@ -168,8 +170,10 @@ func runC17(c C17Case) (res c17result) {
 	for pi, pb := range c.Pubs {
 		sent[pi] = map[int]int{}
 		wg.Add(1)
+		pubsRunning.Add(1)
 		go func(pi int, pb C17Pub) {
 			defer wg.Done()
+			defer pubsRunning.Add(-1)
 			<-start
 			cn := pconns[pi]
 			pid := uint16(0)
@@ -275,8 +279,9 @@ func runC17(c C17Case) (res c17result) {
 			cn.Send(sp)
 			cn.Barrier()
 			<-start
-			for gen := 1; gen <= c.Durable; gen++ {
-				time.Sleep(time.Duration(300*gen) * time.Microsecond)
+			// at least Durable times, and on for as long as publishers are sending (at most 80 times)
+			for gen := 1; gen <= c.Durable || (pubsRunning.Load() > 0 && gen <= 80); gen++ {
+				time.Sleep(time.Duration(100+50*(gen%5)) * time.Microsecond)
 				cn.Close()
 				cn.WaitTeardown(wire.DefaultWait)
 				if f := check(cn, gen-1); f != "" {
